@@ -67,8 +67,8 @@ void SimpleStringBuffer::clear()
 
 void SimpleStringBuffer::add(const char* format, ...)
 {
+    if (positions_filled_ >= write_limit_) return; /* also when the limit was lowered below what is already there */
     const size_t positions_left = write_limit_ - positions_filled_;
-    if (positions_left == 0) return;
 
     va_list arguments;
     va_start(arguments, format);
